@@ -112,7 +112,7 @@ func utf8Class(noColor bool, a, b string) string {
 // and an untouched directory. The converse (same value passes) is checked on the
 // same slot so that an oracle that always expects an error cannot pass.
 func checkC02(c *vkit.Ctx) {
-	c.P.Rule = "case = (api, stored, received, colour, update-disabled mode); received is derived from stored by one small hostile edit (flip/insert/delete byte, trailing/leading newline, `---` <-> `/-/-/-/`, invalid-UTF-8 byte only, whitespace only, duplicate/delete/swap line; for JSON one leaf/member edit) and the premise `formatted texts differ` is asserted with the trusted formatters; non-trivial = every judged pair (they all differ by a minimal edit); distinct by hash(api, formatted stored, formatted received, colour)"
+	c.P.Rule = "case = (api, stored, received, colour, update-disabled mode); received is derived from stored by one small hostile edit (flip/insert/delete byte, trailing/leading newline, `---` <-> `/-/-/-/`, invalid-UTF-8 byte only, whitespace only, duplicate/delete/swap line; for JSON one leaf/member edit) plus 8 (thorough 96) pairs of 1-8 MiB with a one-byte change at the end, behind the last 4 MiB boundary, near the end or anywhere; and the premise `formatted texts differ` is asserted with the trusted formatters; non-trivial = every judged pair (they all differ by a minimal edit); distinct by hash(api, formatted stored, formatted received, colour)"
 	c.P.Assumptions = []string{"kr/pretty and tidwall/pretty are the formatters (trusted); the pair is judged only when their outputs differ"}
 	modes := offModes()
 	n := c.N(150000, 4000000)
